@@ -52,6 +52,12 @@ theorem conc_refines_seq (F : File) (hok : F.ok) (n : Nat) (s : DSt) (h : ReachD
   have hlog := (reachD_all hok h).d.log
   exact ⟨hlog, by rw [hlog, reader_refines_spec F hok true s.hist]⟩
 
+/-- … in particular the results do not depend on the number of Workers nor on the schedule: two runs
+    (any worker counts, any interleavings) that have completed the same calls got the same results -/
+theorem conc_schedule_independent (F : File) (hok : F.ok) (n₁ n₂ : Nat) (s₁ s₂ : DSt)
+    (h₁ : ReachD F n₁ s₁) (h₂ : ReachD F n₂ s₂) (hh : s₁.hist = s₂.hist) : s₁.results = s₂.results := by
+  rw [(conc_refines_seq F hok n₁ s₁ h₁).1, (conc_refines_seq F hok n₂ s₂ h₂).1, hh]
+
 /-- while a Read is in progress, what it has copied to the caller's buffer so far is the decoded
     file's bytes from the position the call started at, and it never goes past the limit -/
 theorem conc_read_prefix (F : File) (hok : F.ok) (n : Nat) (s : DSt) (h : ReachD F n s) (k : Nat)
